@@ -32,8 +32,8 @@ CHECKS = {
             "whitespace oracle = the statement's: none invented (output whitespace only where the source has some), separation kept between adjacent inline content (sibling tier and across control-flow joints); pairs across comments, raw Go, calls, block elements and loop iterations are don't-care",
             "inline element = inline both in HTML and in templ's classification (conservative list)",
         ],
-        "quick": {"timeout": 900, "runs": [{"run": "^TestProp(Compiles|Layouts|Deep)$", "rapid_checks": 3000}, {"run": "^TestPropRenders$", "rapid_checks": 12}]},
-        "thorough": {"timeout": 3400, "shards": 12, "runs": [{"run": "^TestProp(Compiles|Layouts|Deep)$", "rapid_checks": 30000}, {"run": "^TestPropRenders$", "rapid_checks": 50}]},
+        "quick": {"timeout": 900, "runs": [{"run": "^TestPropCompiles$", "rapid_checks": 3000}, {"run": "^TestPropLayouts$", "rapid_checks": 1}, {"run": "^TestPropDeep$", "rapid_checks": 1}, {"run": "^TestPropRenders$", "rapid_checks": 12}]},
+        "thorough": {"timeout": 3400, "shards": 12, "runs": [{"run": "^TestPropCompiles$", "rapid_checks": 30000}, {"run": "^TestProp(Layouts|Deep)$", "rapid_checks": 1}, {"run": "^TestPropRenders$", "rapid_checks": 50}]},
     },
     "C03": {
         "pkg": "./checks/c03",
@@ -75,8 +75,8 @@ CHECKS = {
             "columns are byte columns, lines 0-based (the parser's own convention)",
             "the parser may include the padding inside { } in an expression's text; whitespace-only expressions are not Go expressions",
         ],
-        "quick": {"rapid_checks": 5000, "timeout": 900},
-        "thorough": {"rapid_checks": 60000, "timeout": 3400, "shards": 16,
+        "quick": {"timeout": 900, "runs": [{"run": "^TestProp(Seeds|Truncations|Prefixes|Mutations|Generated|GoShaped)$", "rapid_checks": 5000}, {"run": "^TestPropLayouts$", "rapid_checks": 1}, {"run": "^TestPropDeep$", "rapid_checks": 1}]},
+        "thorough": {"timeout": 3400, "shards": 16, "runs": [{"run": "^TestProp(Seeds|Truncations|Prefixes|Mutations|Generated|GoShaped)$", "rapid_checks": 60000}, {"run": "^TestProp(Layouts|Deep)$", "rapid_checks": 1}],
                      "fuzz": [{"target": "FuzzParse", "time": "300s", "hard_timeout": 1200}]},
     },
     "C07": {
@@ -87,8 +87,8 @@ CHECKS = {
             "the map is checked against the generator's raw output (what the language server uses), not the gofmt-ed file",
             "whitespace-only expressions are skipped by the generator by design; script template names/parameters become string constants and are not mapped",
         ],
-        "quick": {"rapid_checks": 6000, "timeout": 900},
-        "thorough": {"rapid_checks": 80000, "timeout": 3400, "shards": 16},
+        "quick": {"timeout": 900, "runs": [{"run": "^TestProp(Seeds|Generated)$", "rapid_checks": 6000}, {"run": "^TestPropLayouts$", "rapid_checks": 1}, {"run": "^TestPropDeep$", "rapid_checks": 1}]},
+        "thorough": {"timeout": 3400, "shards": 16, "runs": [{"run": "^TestProp(Seeds|Generated)$", "rapid_checks": 80000}, {"run": "^TestProp(Layouts|Deep)$", "rapid_checks": 1}]},
     },
     "C08": {
         "pkg": "./checks/c08",
@@ -98,8 +98,8 @@ CHECKS = {
             "'the same program' = equal Go token streams after gofmt on both sides: comments, semicolons and trailing commas dropped, templ.Error Line/Col masked; nothing else is masked",
             "whitespace mutations are applied to template bodies only (not to the package clause / imports) and only spellings that templ generate still accepts are judged",
         ],
-        "quick": {"timeout": 900, "runs": [{"run": "^TestProp(Seeds|OneLiners|Layouts|Deep|Generated|WhitespaceMutations)$", "rapid_checks": 4000}, {"run": "^TestPropFmtCmd$", "rapid_checks": 600}]},
-        "thorough": {"timeout": 3400, "shards": 16, "runs": [{"run": "^TestProp(Seeds|OneLiners|Layouts|Deep|Generated|WhitespaceMutations)$", "rapid_checks": 60000}, {"run": "^TestPropFmtCmd$", "rapid_checks": 6000}]},
+        "quick": {"timeout": 900, "runs": [{"run": "^TestProp(Seeds|Generated|WhitespaceMutations)$", "rapid_checks": 4000}, {"run": "^TestPropOneLiners$", "rapid_checks": 1}, {"run": "^TestPropLayouts$", "rapid_checks": 1}, {"run": "^TestPropDeep$", "rapid_checks": 1}, {"run": "^TestPropFmtCmd$", "rapid_checks": 600}]},
+        "thorough": {"timeout": 3400, "shards": 16, "runs": [{"run": "^TestProp(Seeds|Generated|WhitespaceMutations)$", "rapid_checks": 60000}, {"run": "^TestProp(OneLiners|Layouts|Deep)$", "rapid_checks": 1}, {"run": "^TestPropFmtCmd$", "rapid_checks": 6000}]},
     },
     "C09": {
         "pkg": "./checks/c09",
@@ -109,8 +109,8 @@ CHECKS = {
             "only inputs that templ generate accepts are judged",
             "the directory code path (fmtcmd.Run on files, with import clean-up) is exercised on tgen programs with generated import blocks; the stdin path is what the other sub-check uses",
         ],
-        "quick": {"timeout": 900, "runs": [{"run": "^TestProp(Seeds|OneLiners|Layouts|Deep|Generated|WhitespaceMutations)$", "rapid_checks": 4000}, {"run": "^TestPropFmtCmd$", "rapid_checks": 500}]},
-        "thorough": {"timeout": 3400, "shards": 16, "runs": [{"run": "^TestProp(Seeds|OneLiners|Layouts|Deep|Generated|WhitespaceMutations)$", "rapid_checks": 60000}, {"run": "^TestPropFmtCmd$", "rapid_checks": 5000}]},
+        "quick": {"timeout": 900, "runs": [{"run": "^TestProp(Seeds|Generated|WhitespaceMutations)$", "rapid_checks": 4000}, {"run": "^TestPropOneLiners$", "rapid_checks": 1}, {"run": "^TestPropLayouts$", "rapid_checks": 1}, {"run": "^TestPropDeep$", "rapid_checks": 1}, {"run": "^TestPropFmtCmd$", "rapid_checks": 500}]},
+        "thorough": {"timeout": 3400, "shards": 16, "runs": [{"run": "^TestProp(Seeds|Generated|WhitespaceMutations)$", "rapid_checks": 60000}, {"run": "^TestProp(OneLiners|Layouts|Deep)$", "rapid_checks": 1}, {"run": "^TestPropFmtCmd$", "rapid_checks": 5000}]},
     },
     "C10": {
         "pkg": "./checks/c10",
